@@ -466,11 +466,7 @@ func (pConn *PFCPConn) handleSessionDeletionRequest(msg message.Message) (messag
 		return sendError(ErrWriteToDatapath)
 	}
 
-	if err := releaseAllocatedIPs(upf.ippool, &session); err != nil {
-		return sendError(ErrOperationFailedWithReason("session IP dealloc", err.Error()))
-	}
-
-	/* delete sessionRecord */
+	/* delete sessionRecord, releasing the UE IP and TEIDs allocated for it */
 	pConn.RemoveSession(session)
 
 	// Build response message
